@@ -212,8 +212,12 @@ func TestC09_CrashPoints(t *testing.T) {
 		}
 		fileMode := c09DrawModes(t, base)
 		symlinked := rapid.IntRange(0, 4).Draw(t, "symlinked") == 0
+		farLink := !symlinked && rapid.IntRange(0, 3).Draw(t, "symlinked-to-another-file-system") == 0
 		if symlinked {
 			fileMode += "+symlink"
+		}
+		if farLink {
+			fileMode += "+far-symlink"
 		}
 		oldNB := readOrNil(base.Notebook())
 		var oldEntries []database.Command
@@ -263,6 +267,10 @@ func TestC09_CrashPoints(t *testing.T) {
 				defer h.Remove()
 				if symlinked {
 					c09Symlink(h)
+				}
+				if farLink {
+					cleanup, _ := c09SymlinkFar(h)
+					defer cleanup()
 				}
 				r := runFaulted(h, dir, args, cp)
 				o := outcome{cp: cp}
